@@ -55,10 +55,17 @@ package base
 //@   assigns b[0:len(b)]
 
 // FastRead never panics, never reports more than it was given, and touches only the four fields.
+// The call-site assertions pin the dispatch: a field is decoded into a struct member only when
+// both its id and its type are the member's; everything else is skipped.
 //@ func Base.FastRead
-//@   arith int
+//@   arith bv
 //@   props C03, C11
 //@   requires !isnil(p)
+//@   assert call 5 fid == 1 && ftyp == 11
+//@   assert call 6 fid == 2 && ftyp == 11
+//@   assert call 9 fid == 3 && ftyp == 11
+//@   assert call 10 fid == 6 && ftyp == 13
+//@   assert call 11 !((fid == 1 || fid == 2 || fid == 3) && ftyp == 11) && !(fid == 6 && ftyp == 13)
 //@   ensures err == nil ==> 1 <= off && off <= len(b) && b[off-1] == 0
 //@   assigns p.LogID, p.Caller, p.Addr, p.Extra
 //@   loop 1 invariant 0 <= off && off <= len(b) && err == nil
@@ -102,9 +109,13 @@ package base
 //@   assigns b[0:len(b)]
 
 //@ func BaseResp.FastRead
-//@   arith int
+//@   arith bv
 //@   props C03, C11
 //@   requires !isnil(p)
+//@   assert call 5 fid == 1 && ftyp == 11
+//@   assert call 6 fid == 2 && ftyp == 8
+//@   assert call 9 fid == 3 && ftyp == 13
+//@   assert call 10 !(fid == 1 && ftyp == 11) && !(fid == 2 && ftyp == 8) && !(fid == 3 && ftyp == 13)
 //@   ensures err == nil ==> 1 <= off && off <= len(b) && b[off-1] == 0
 //@   assigns p.StatusMessage, p.StatusCode, p.Extra
 //@   loop 1 invariant 0 <= off && off <= len(b) && err == nil
